@@ -553,7 +553,8 @@ func cmdCheck(args []string) int {
 
 func outcomeMatches(outcome string, v *symgo.Violation) bool {
 	if v.Panic {
-		return strings.HasPrefix(outcome, "panic:")
+		// a panic in a goroutine of the code under test takes the whole replay process down
+		return strings.HasPrefix(outcome, "panic:") || outcome == "crash"
 	}
 	return outcome == "assert:"+v.AssertID
 }
